@@ -339,6 +339,17 @@ class CI:
         return (('ch', list(self.ch)),), ('-', None)
 
 
+class CO(CI):
+    """children handed out as the node's *own* list (no copy): traversals must neither keep iterating it after a
+    callback changed it nor modify it themselves"""
+
+    def tree_flatten(self):
+        return self.ch, None
+
+    def __repr__(self):
+        return f'CO({self.ch!r})'
+
+
 @odc.dataclass(namespace=NS)
 class DC:
     x: object
@@ -542,7 +553,7 @@ def bad_unflatten(meta, ch):
     return Bad('rebuilt')
 
 
-CUSTOM_CLASSES = (CG, CN, CS, CM, CU, CI, DC, oft.partial, Bad, CSeq, CMap, DCI, CL, DSN)
+CUSTOM_CLASSES = (CG, CN, CS, CM, CU, CI, DC, oft.partial, Bad, CSeq, CMap, DCI, CL, DSN, CO)
 
 # (namespace, type) -> (flatten, unflatten, path_entry_type).  '' is the global namespace.
 MODEL_REGISTRY: dict = {}
@@ -575,6 +586,8 @@ def install():
     MODEL_REGISTRY[('', CU)] = (_cls_flatten, CU.tree_unflatten, optree.AutoEntry)
     optree.register_pytree_node_class(CI, namespace=GLOBAL)
     MODEL_REGISTRY[('', CI)] = (_cls_flatten, CI.tree_unflatten, optree.AutoEntry)
+    optree.register_pytree_node_class(CO, namespace=GLOBAL)
+    MODEL_REGISTRY[('', CO)] = (_cls_flatten, CO.tree_unflatten, optree.AutoEntry)
     # registered by the decorators above / at import of optree.functools:
     e = optree.register_pytree_node.get(DC, namespace=NS)
     MODEL_REGISTRY[(NS, DC)] = (e.flatten_func, e.unflatten_func, optree.DataclassEntry)
